@@ -11,6 +11,7 @@ from ..flow import bound_from, expand_helpers, inline_reaching
 from ..index import UNRESOLVED, AnalysisError, ClassInfo, dotted
 from ..kernel import Affine, OutsideFragment, affine
 from ..report import Ctx
+from ..astutil import clone
 
 PROP = "C12"
 HELP = "antismash/common/secmet/features/region/helpers.py"
@@ -228,14 +229,13 @@ def _resolved_stores(ctx: Ctx, func: ast.FunctionDef, cfg: CFG, keep: Set[str] =
 
 
 def _substitute(expr: ast.AST, mapping: Dict[str, ast.AST]) -> ast.AST:
-    import copy
 
     class Sub(ast.NodeTransformer):
         def visit_Name(self, node: ast.Name) -> ast.AST:
             if node.id in mapping and isinstance(node.ctx, ast.Load):
-                return copy.deepcopy(mapping[node.id])
+                return clone(mapping[node.id])
             return node
-    return ast.fix_missing_locations(Sub().visit(copy.deepcopy(expr)))
+    return ast.fix_missing_locations(Sub().visit(clone(expr)))
 
 
 def r12_3(ctx: Ctx) -> None:
